@@ -20,13 +20,15 @@ def layout_change(a, b):
     """Class of a pass-1 -> pass-2 layout change from the first differing line."""
     ta, tb = abstract_text(a).split(), abstract_text(b).split()
     first = ta[0] if ta else (tb[0] if tb else "")
+    if not re.match(r"^[a-z]+$", first) or first == "v":
+        first = "v" if re.match(r"^[A-Za-z_]", first) else first[:1]
     np = lambda t: [x for x in " ".join(t).replace("(", " ").replace(")", " ").split()]
     if ta != tb and np(ta) == np(tb):
         return "parentheses %s on pass 2 in `%s ...`" % ("dropped" if len("".join(ta)) > len("".join(tb)) else "added", first)
     if tb and ta[:len(tb)] == tb and len(ta) > len(tb):
-        return "line split after `%s` in `%s ...`" % (tb[-1], first)
+        return "line split after `%s` in `%s ...`" % (tb[-1][-1:], first)
     if ta and tb[:len(ta)] == ta and len(tb) > len(ta):
-        return "lines joined after `%s` in `%s ...`" % (ta[-1], first)
+        return "lines joined after `%s` in `%s ...`" % (ta[-1][-1:], first)
     if not ta and not tb:
         return "blank line / whitespace"
     if ta == tb:
@@ -79,6 +81,8 @@ def signature(pid, what, source, case, events, i=0):
     meta = case.get("meta", {}) or {}
     tag = meta.get("sig") or ""
     rd = _ev(events, "Render")
+    if source == "corpus":
+        tag = str(case.get("id", "")).replace("corpus:", "")
     if rd.get("slot_ctx"):
         tag = ";".join("%s@%s|%s" % (c["kind"], c["prev"], c["next"]) for c in rd["slot_ctx"])
         cfg = (f or r or x).get("cfg", {})
@@ -104,8 +108,10 @@ def signature(pid, what, source, case, events, i=0):
     if what in ("oscillation", "late_convergence") or what.startswith("second_pass"):
         return "%s|%s|%s|%s" % (source, what, tag, layout_change(x.get("line_a", ""), x.get("line_b", "")))
     if pid == "C10":
-        cls = [c for c in f.get("lines", {}).get("classes", [])]
-        return "%s|%s|%s" % (source, what, tag)
+        cfg = f.get("cfg", {})
+        base = ";".join("%s@%s|%s" % (c["kind"], c["prev"], c["next"]) for c in rd.get("slot_ctx", [])) if rd.get("slot_ctx") else (meta.get("sig") or "")
+        opt = ("eol=" + cfg.get("line_endings", "Unix")) if what in ("line_ending", "stray_cr", "no_final_newline", "extra_final_newlines") else ("indent=" + cfg.get("indent_type", "Tabs"))
+        return "%s|%s|%s;%s" % (source, what, base, opt)
     if pid == "C07":
         return "%s|%s|%s|%s" % (source, what, tag, strip_pos(f.get("msg", "")))
     return "%s|%s|%s" % (source, what, tag)
